@@ -3,7 +3,14 @@ process).  CrossHair randomly "short-circuits" calls of contract-bearing functio
 returning an uninterpreted symbolic value instead of running the body.  Code that hashes objects with a Python-level __hash__ (pydsdl
 types in lru_cache keys and sets) then hands a symbolic int to C-level dict/set code ("proxy intolerance"), the path is abandoned as
 UNKNOWN and a condition that holds can never be confirmed.  Interpreting every body is the more precise semantics, so short-circuiting
-is switched off wherever interpretation is allowed.  Nothing else in the tool is touched."""
+is switched off wherever interpretation is allowed.
+
+Second adjustment (a stub, listed in the evidence of every harness that imports this module): the bundled jinja2.utils.Namespace (the object
+behind `{% set ns = namespace(...) %}`) overrides __getattribute__ so that EVERY attribute, `__init__` and `__class__` included, is looked up
+in its dictionary.  CrossHair constructs instances itself and fetches `obj.__init__` / `obj.__class__` through the instance, which plain
+CPython never does, and so fails with an AttributeError that does not exist natively.  Under CrossHair only, the class is replaced by one with
+the same template-visible behaviour (attribute read = dictionary lookup, AttributeError when missing; item assignment = dictionary store) that
+resolves dunder attributes normally.  Native replays run the real class."""
 try:
     import crosshair.core as _cc
 
@@ -15,5 +22,32 @@ try:
         return _orig(fn, sig, bound, subconditions, allow_interpretation=allow_interpretation)
 
     _cc.consider_shortcircuit = _no_shortcircuit
+
+    _install_namespace_standin = True
+    import os as _os
+    if _os.environ.get("VERIF_UNDER_CROSSHAIR") == "1":
+        import nunavut.jinja.jinja2.defaults as _jd
+        import nunavut.jinja.jinja2.runtime as _jr
+        import nunavut.jinja.jinja2.utils as _ju
+
+        class Namespace(object):  # same name: the compiled templates test isinstance(x, Namespace) through runtime.Namespace
+            def __init__(*args, **kwargs):
+                self, args = args[0], args[1:]
+                object.__setattr__(self, "_Namespace__attrs", dict(*args, **kwargs))
+
+            def __getattr__(self, name):
+                try:
+                    return object.__getattribute__(self, "_Namespace__attrs")[name]
+                except KeyError:
+                    raise AttributeError(name)
+
+            def __setitem__(self, name, value):
+                object.__getattribute__(self, "_Namespace__attrs")[name] = value
+
+            def __repr__(self):
+                return "<Namespace %r>" % object.__getattribute__(self, "_Namespace__attrs")
+
+        _ju.Namespace = _jr.Namespace = Namespace
+        _jd.DEFAULT_NAMESPACE["namespace"] = Namespace
 except ImportError:  # native replay
     pass
